@@ -184,6 +184,7 @@ def run_case(ctx, mr, case):
             ctx.diff('oracle', 'heal:verify', hcase, 'ok', str(res3['bad_blocks'][:3]), 'after rewriting a damaged block the file does not verify')
         c3.close()
         ctx.stat('heal_histories')
+    sc.heal_neighbour_case(ctx, case, rng, img, info, payloads, geom)
     # CMAC
     if cm and wrote:
         hdr = out[0x100:0x200]
